@@ -86,3 +86,74 @@ Example C15_examples :
     Ok (mk_ec "|" "^" "~" "\" "&" (Some "#"%byte), Some ("ADT_A01" : str), Some ("2.7" : str)) /\
   get_message_info ("MSH|^~\&|||||||ADT" : str) = Ok (mk_ec "|" "^" "~" "\" "&" None, None, None).
 Proof. vm_compute. repeat split; reflexivity. Qed.
+
+(* ============================================================================================ *)
+(* SEGMENT LEVEL: the tree parser (Model/Tree.v, Model/Parser.v) and the encoder (Model/Encode.v).
+   In these models every l[i], d[k], tuple unpacking, int(...) and attribute access on None of
+   core.py / parser.py is an explicit Err (Crash _) / Err PyValueError.  The theorems say that none
+   of them is reachable from parse_segment(text, version=v, validation_level=lvl,
+   encoding_chars=e) and from to_er7() of its result: for EVERY text (no bound), every shipped
+   version, both validation levels, every delimiter set.  With Model/Leaf.v's leaf layer (which
+   never raises ValueError) the outcome is a Segment or an HL7apyException.
+   Proofs: Proofs/NoCrash.v (semantic invariant `ref_ok` on the references handed around) and
+   Proofs/NoCrashTables.v (the invariant follows from Oblig/WfAll.v for the shipped tables). *)
+From HL7 Require Import Model.Ref Model.Tree Model.Parser Model.Encode Model.Leaf Gen.Params Gen.Tables
+     Proofs.NoCrash Proofs.NoCrashTables.
+
+Theorem C15_parse_segment_no_crash : forall v t lvl e (text : str), tables_of v = Some t ->
+  (exists s, parse_segment t lvl e (leaf_enc v lvl e) text None = Ok s) \/
+  (exists c, parse_segment t lvl e (leaf_enc v lvl e) text None = Err (HL7 c)).
+Proof.
+  intros v t lvl e text Ht.
+  destruct (sp_cases _ _ (shipped_parse_segment_safe v t lvl e text Ht)) as [[s [H _]]|[c H]]; eauto.
+Qed.
+Print Assumptions C15_parse_segment_no_crash.
+
+Theorem C15_parse_segment_never_crashes : forall v t lvl e (text : str) k, tables_of v = Some t ->
+  parse_segment t lvl e (leaf_enc v lvl e) text None <> Err (Crash k) /\
+  parse_segment t lvl e (leaf_enc v lvl e) text None <> Err OutOfFuel /\
+  parse_segment t lvl e (leaf_enc v lvl e) text None <> Err PyValueError.
+Proof.
+  intros v t lvl e text k Ht.
+  destruct (C15_parse_segment_no_crash v t lvl e text Ht) as [[s ->]|[c ->]]; repeat split; discriminate.
+Qed.
+Print Assumptions C15_parse_segment_never_crashes.
+
+(* to_er7() of every segment that parsed succeeds - under any delimiter set e', with and without
+   trailing children *)
+Theorem C15_enc_segment_total : forall v t lvl e (text : str) s e' trailing, tables_of v = Some t ->
+  parse_segment t lvl e (leaf_enc v lvl e) text None = Ok s ->
+  exists x, enc_segment t e' s trailing = Ok x.
+Proof.
+  intros v t lvl e text s e' trailing Ht H.
+  exact (sp_inv _ _ s (shipped_parse_segment_safe v t lvl e text Ht) H e' trailing).
+Qed.
+Print Assumptions C15_enc_segment_total.
+
+(* the same for ANY tables satisfying the semantic premises (custom references / profiles):
+   the statement does not depend on the shipped data *)
+Theorem C15_parse_segment_no_crash_general : forall t lvl e leaf (text : str),
+  base t (Some (unbs "ST")) = true ->
+  (forall n r, slookup n (t_fields t) = Some r -> ref_ok t r) ->
+  (forall n r, slookup n (t_components t) = Some r -> ref_ok t r) ->
+  (forall n r, length n <= 3 -> slookup n (t_segments t) = Some r -> seg_good t n r) ->
+  (forall dt s, sp TT (leaf dt s)) ->
+  sp (fun s => forall e' trailing, exists x, enc_segment t e' s trailing = Ok x)
+     (parse_segment t lvl e leaf text None).
+Proof. intros t lvl e leaf text H1 H2 H3 H4 H5. exact (parse_segment_safe t H1 H2 H3 H4 lvl e leaf H5 text). Qed.
+Print Assumptions C15_parse_segment_no_crash_general.
+
+(* the hypotheses are satisfiable, and the outcomes on some awkward lines *)
+Example C15_segment_examples :
+  tables_of "2.5" = Some Gen.Tables_v2_5.tables /\
+  (let P lvl (s : str) := parse_segment Gen.Tables_v2_5.tables lvl default_ec (leaf_enc "2.5" lvl default_ec) s None in
+   outcome_code (P STRICT "PID|1^2") = 6 /\ outcome_code (P TOLERANT "PID|1^2") = 0 /\
+   outcome_code (P STRICT "MS") = 3 /\ outcome_code (P TOLERANT "") = 3 /\
+   outcome_code (P STRICT "pid|1") = 0 /\ outcome_code (P TOLERANT "zab|a^b&c~d") = 0 /\
+   outcome_code (P STRICT "OBX|1|CE|a^b^c^d^e^f^g^h") = 3 /\ outcome_code (P TOLERANT "OBX|1|CE|a^b^c^d^e^f^g^h") = 0 /\
+   outcome_code (P TOLERANT "MSH") = 0 /\
+   match P TOLERANT "PID|1^2||x~y" with
+   | Ok s => enc_segment Gen.Tables_v2_5.tables default_ec s false = Ok (unbs "PID|1^2||x~y")
+   | Err _ => False
+   end).
+Proof. vm_compute. repeat split; reflexivity. Qed.
